@@ -13,8 +13,8 @@ ParV == [b \in 1 .. (H + F + F2) |-> IF b <= H THEN b - 1 ELSE IF b = H + 1 THEN
                                        ELSE IF b <= H + F THEN b - 1 ELSE IF b = H + F + 1 THEN ForkAt2 ELSE b - 1]
 CpsV == {h \in CpHs : h <= H}        \* checkpoints are honest-chain blocks (block id = height on the honest chain)
 
-VARIABLES hist, nenv, knownOnly, dropped     \* dropped: an inv was dropped by handleInvMsg's "not the sync peer and not current" rule
-msyvars == <<syvars, hist, nenv, dropped, knownOnly>>   \* knownOnly: a headers reply brought no new longest-chain header ("do nothing")
+VARIABLES hist, nenv, script, knownOnly, dropped     \* dropped: an inv was dropped by handleInvMsg's "not the sync peer and not current" rule
+msyvars == <<syvars, hist, nenv, dropped, knownOnly, script>>   \* knownOnly: a headers reply brought no new longest-chain header ("do nothing")
 
 NB == H + F + F2
 StV == [k \in 1 .. (NB + 1) |-> IF (k - 1) \in DOMAIN rows' THEN rows'[k - 1].st ELSE "-"]
@@ -23,7 +23,9 @@ BestOff == LET off == {nd'[p].best : p \in {q \in Peers : nd'[q].conn}} IN
 Obs == [sent |-> lastSent', tip |-> TipOf(rows'), st |-> StV, sync |-> syncPeer', quiet |-> (mq' = <<>>),
         bestoff |-> BestOff, banned |-> SetToSeq(ban')]
 
-MSyInit == SyInit /\ hist = <<>> /\ nenv = 0 /\ dropped = FALSE /\ knownOnly = FALSE
+\* a script (chosen by the driver) fixes the KIND of every environment event; TLC enumerates who, what and how.  <<>> = free
+Scripts == {<<>>}
+MSyInit == SyInit /\ hist = <<>> /\ nenv = 0 /\ dropped = FALSE /\ knownOnly = FALSE /\ script \in Scripts
 
 \* scenario constraints keep the replay deterministic and inside the property's premises:
 \*  - at most one sync-peer candidate can be chosen at any time (the code picks randomly among several)
@@ -37,30 +39,33 @@ SeqSet(q) == {q[k] : k \in 1 .. Len(q)}
 \* what a node asks with: from genesis, from its own tip, from its tip and a block the service cannot know
 AskLocs(p) == {<<0>>, <<nd[p].best, 0>>, <<NB + 7, nd[p].best>>}
 AskStops(p) == {-1} \cup ({nd[p].best} \ {0})     \* a stop at genesis is the listed finding D9 of C13, not asked here
-LogEnv(rec) == hist' = Append(hist, rec @@ [kind |-> "env"]) /\ nenv' = nenv + 1 /\ UNCHANGED <<dropped, knownOnly>>
+Kind(k) == script = <<>> \/ (nenv < Len(script) /\ script[nenv + 1] = k)
+EnvBound == IF script = <<>> THEN MaxEnv ELSE Len(script)
+LogEnv(rec) == hist' = Append(hist, rec @@ [kind |-> "env"]) /\ nenv' = nenv + 1 /\ UNCHANGED <<dropped, knownOnly, script>>
 Pending == {q \in Peers : nd[q].conn /\ nq[q] # <<>>}
 \* phase 2: after the MaxEnv environment events every connected node keeps answering (lowest id first) until nothing is asked
 MDrain ==
-  /\ mq = <<>> /\ nenv >= MaxEnv /\ Pending # {}
+  /\ mq = <<>> /\ nenv >= EnvBound /\ Pending # {}
   /\ LET p == Min(Pending) IN NodeReply(p) /\ hist' = Append(hist, [op |-> "reply", p |-> p, ids |-> ReplyIds(p, Head(nq[p])), kind |-> "env"])
-  /\ UNCHANGED <<nenv, dropped, knownOnly>>
+  /\ UNCHANGED <<nenv, dropped, knownOnly, script>>
 
 MEnv ==
-  /\ mq = <<>> /\ nenv < MaxEnv
+  /\ mq = <<>> /\ nenv < EnvBound
   /\ \/ \E p \in Peers, b \in {0} \cup (1 .. NB) :
-          /\ NConn < MaxConnects
+          /\ NConn < MaxConnects /\ Kind("connect")
           /\ \/ Connect(p, b) /\ LogEnv([op |-> "connect", p |-> p, b |-> b, banned |-> FALSE])
              \/ ConnectBanned(p, b) /\ LogEnv([op |-> "connect", p |-> p, b |-> b, banned |-> TRUE])
-     \/ \E p \in Peers : NodeReply(p) /\ LogEnv([op |-> "reply", p |-> p, ids |-> ReplyIds(p, Head(nq[p]))])
-     \/ \E p \in Peers : /\ NRaw < MaxRaw /\ nq[p] # <<>> /\ ReplyIdsRaw(p, Head(nq[p])) # ReplyIds(p, Head(nq[p]))
+     \/ \E p \in Peers : Kind("reply") /\ NodeReply(p) /\ LogEnv([op |-> "reply", p |-> p, ids |-> ReplyIds(p, Head(nq[p]))])
+     \/ \E p \in Peers : /\ Kind("rawreply") /\ NRaw < MaxRaw /\ nq[p] # <<>> /\ ReplyIdsRaw(p, Head(nq[p])) # ReplyIds(p, Head(nq[p]))
                           /\ NodeReplyRaw(p) /\ LogEnv([op |-> "reply", p |-> p, ids |-> ReplyIdsRaw(p, Head(nq[p])), raw |-> TRUE])
-     \/ \E p \in Peers : NodeClose(p) /\ LogEnv([op |-> "close", p |-> p])
+     \/ \E p \in Peers : Kind("close") /\ NodeClose(p) /\ LogEnv([op |-> "close", p |-> p])
      \/ \E p \in Peers, b \in 1 .. NB, how \in {"inv", "headers"} :
           /\ Par[b] = nd[p].best        \* the node's chain grows by one block
+          /\ Kind("announce")
           /\ NodeAnnounce(p, b, how) /\ LogEnv([op |-> "announce", p |-> p, b |-> b, how |-> how])
-     \/ (NRst < MaxRestarts /\ RestartSrv /\ LogEnv([op |-> "restart"]))
+     \/ (Kind("restart") /\ NRst < MaxRestarts /\ RestartSrv /\ LogEnv([op |-> "restart"]))
      \/ \E p \in Peers : \E l \in AskLocs(p), sp \in AskStops(p) :
-          /\ NAsk < MaxAsks /\ NodeAsk(p)
+          /\ Kind("ask") /\ NAsk < MaxAsks /\ NodeAsk(p)
           /\ LogEnv([op |-> "ask", p |-> p, loc |-> l, stop |-> sp, served |-> Served(SeqSet(l), sp)])
 InvDropped == LET m == Head(mq) IN m.t = "inv" /\ pk[m.p].known /\ m.p # syncPeer /\ ~MgrCurrent
 \* handleHeadersMsg: "If all the headers received where rejected or already in the database, don't request more headers
@@ -70,18 +75,18 @@ KnownOnlyReply == LET m == Head(mq) IN
   /\ m.t = "hdrs" /\ pk[m.p].known /\ hf /\ m.ids # <<>>
   /\ LET res == Ingest(rows, m.ids, 1, [rows |-> rows, final |-> 0, gotCp |-> FALSE, stop |-> ""], nextCp)
      IN res.stop = "" /\ res.final = 0
-MMgr == MgrStep /\ hist' = Append(hist, [kind |-> "mgr"] @@ Obs) /\ UNCHANGED nenv /\ dropped' = (dropped \/ InvDropped)
+MMgr == MgrStep /\ hist' = Append(hist, [kind |-> "mgr"] @@ Obs) /\ UNCHANGED <<nenv, script>> /\ dropped' = (dropped \/ InvDropped)
         /\ knownOnly' = (knownOnly \/ KnownOnlyReply)
 
 MSyNext == MMgr \/ MEnv \/ MDrain
 MSySpec == MSyInit /\ [][MSyNext]_msyvars /\ WF_msyvars(MMgr)
 \* everything that guards an action must be in the view, or TLC merges states with different futures
-SyView == <<syvars, nenv, NConn, NRst, NAsk, NRaw, dropped, knownOnly>>
+SyView == <<syvars, nenv, NConn, NRst, NAsk, NRaw, dropped, knownOnly, script>>
 
 \* random choice among several candidates: only single-candidate situations are generated for replay
 ChoiceConstraint == Cardinality(Candidates(pk, rows)) <= 1 \/ syncPeer # 0 \/ mq = <<>>
 
-Terminal == mq = <<>> /\ nenv >= MaxEnv /\ Pending = {}
+Terminal == mq = <<>> /\ nenv >= EnvBound /\ Pending = {}
 Scn == [par |-> [b \in 1 .. NB |-> ParV[b]], cps |-> SetToSeq(CpsV), cpEnabled |-> CpEnabled, forbid |-> SetToSeq(Forbid), cap |-> Cap, name |-> Scenario,
         findings |-> SetToSeq(Findings)]
 StNow == [k \in 1 .. (NB + 1) |-> IF (k - 1) \in DOMAIN rows THEN rows[k - 1].st ELSE "-"]
